@@ -705,7 +705,7 @@ func (q *srcQuery) barrierFree(from, to ssa.Instruction, events map[ssa.Instruct
 		fwd[b] = true
 		if scanBlock(b, 0) {
 			through[b] = true
-			for _, s := range b.Succs {
+			for _, s := range liveSuccs(b) {
 				visit(s)
 			}
 		}
@@ -720,7 +720,7 @@ func (q *srcQuery) barrierFree(from, to ssa.Instruction, events map[ssa.Instruct
 	}
 	if scanBlock(start, idx) {
 		startThrough := true
-		for _, s := range start.Succs {
+		for _, s := range liveSuccs(start) {
 			visit(s)
 		}
 		// (visit may have re-entered start through a loop: keep the from-point semantics)
